@@ -32,6 +32,7 @@ Matches(e) ==
    /\ m.wq = s[<<"wq", 0>>]
    /\ m.refund = s[<<"refund", 0>>]
    /\ m.logs = s[<<"logs", 0>>]
+   /\ SetOf(m.pre) = s[<<"pre", 0>>]
    /\ e.lens = <<Len(revs'), Len(vrevs'), Len(j'), Len(vj')>>
 
 IsEvent(name) == l <= Len(TraceLog) /\ TraceLog[l].ev = name /\ l' = l + 1
@@ -49,6 +50,7 @@ Act(e) == LET a == e.args IN
      [] e.ev = "SetCode"    -> SetCode(a.a, a.v)
      [] e.ev = "SetState"   -> SetState(a.a, a.s, a.v)
      [] e.ev = "AddLog"     -> AddLog
+     [] e.ev = "AddPreimage" -> AddPreimage(a.v)
      [] e.ev = "AddRefund"  -> AddRefund(a.v)
      [] e.ev = "SubRefund"  -> SubRefund(a.v)
      [] e.ev = "CreateValidator" -> CreateValidator(a.v, a.tok)
